@@ -27,6 +27,7 @@ type Env struct {
 	mode     int    // 0 plain; 1 goal (skolemise positive foralls); 2 hypothesis instance (bind positive foralls to instK)
 	instK    Term   // index term for mode 2
 	skolems  []Term // constants introduced in mode 1
+	points   []Term // index terms read by the goal (mode 1)
 }
 
 var tInt = types.Typ[types.Int]
@@ -354,6 +355,9 @@ func (env *Env) index(x *ast.IndexExpr) Val {
 	tr := env.tr
 	b := env.eval(x.X)
 	i := env.eval(x.Index)
+	if env.mode == 1 && len(i.C) == 1 && i.C[0].Sort == SInt && !strings.Contains(i.C[0].S, "!q") {
+		env.points = append(env.points, i.C[0])
+	}
 	st := env.cur()
 	switch u := under(b.T).(type) {
 	case *types.Slice:
@@ -841,9 +845,12 @@ func (g *Gen) bytesToStr(e *Emitter, arr, off, n Term) Term {
 func (env *Env) viewApp(p *Pred, args []Val) Val {
 	tr := env.tr
 	g := tr.g
-	for _, a := range args {
+	for ai, a := range args {
 		if len(a.C) != 1 {
 			return env.fail("view %s: argument is not a single-component value", p.Name)
+		}
+		if env.mode == 1 && ai > 0 && a.C[0].Sort == SInt && isInteger(a.T) && !strings.Contains(a.C[0].S, "!q") {
+			env.points = append(env.points, a.C[0])
 		}
 	}
 	// evaluate the body over placeholders
@@ -921,6 +928,7 @@ func (env *Env) clone() *Env {
 	}
 	c.letBusy = map[string]bool{}
 	c.skolems = nil
+	c.points = nil
 	return &c
 }
 
@@ -943,20 +951,37 @@ func (tr *Trans) assumeClause(env *Env, cond Term, e ast.Expr) {
 // goalClause evaluates a clause as a proof goal: positive foralls become fresh constants, and every registered
 // quantified hypothesis is instantiated at those constants (returned as extra assumptions for this obligation).
 func (tr *Trans) goalClause(env *Env, e ast.Expr) (Term, []Term) {
-	if !(astHasForall(e) || tr.g.specsHaveQuantPred(e)) {
+	if len(tr.g.hyps) == 0 && !(astHasForall(e) || tr.g.specsHaveQuantPred(e)) {
 		return env.evalBool(e), nil
 	}
 	env.mode, env.pol = 1, 1
 	t := env.evalBool(e)
 	env.mode = 0
 	var extra []Term
+	seen := map[string]bool{}
+	var points []Term
+	addPoint := func(x Term) {
+		if !seen[x.S] && len(points) < 40 {
+			seen[x.S] = true
+			points = append(points, x)
+		}
+	}
 	for _, k := range env.skolems {
 		// the index itself and its neighbours (shifted views: byte-at-a-time readers and writers)
-		for _, idx := range []Term{k, add(k, intT(1)), sub(k, intT(1)), intT(0)} {
-			for _, h := range tr.g.hyps {
-				if x := h(idx); x.S != "true" {
-					extra = append(extra, x)
-				}
+		addPoint(k)
+		addPoint(add(k, intT(1)))
+		addPoint(sub(k, intT(1)))
+	}
+	addPoint(intT(0))
+	// every index at which the goal reads an array, a string or a view
+	for _, ix := range env.points {
+		addPoint(ix)
+	}
+	env.points = nil
+	for _, idx := range points {
+		for _, h := range tr.g.hyps {
+			if x := h(idx); x.S != "true" {
+				extra = append(extra, x)
 			}
 		}
 	}
@@ -987,4 +1012,87 @@ func (g *Gen) specsHaveQuantPred(e ast.Expr) bool {
 	}
 	visit(e, 0)
 	return found
+}
+
+// indexTermsOf extracts the index arguments of array reads, string reads and view applications from an SMT term.
+func indexTermsOf(term string) []string {
+	var out []string
+	seen := map[string]bool{}
+	// tokenise into s-expressions
+	var parse func(i int) (int, []string, string) // returns next index, children texts, head
+	_ = parse
+	type node struct {
+		text string
+		kids []*node
+	}
+	pos := 0
+	var rd func() *node
+	rd = func() *node {
+		for pos < len(term) && (term[pos] == ' ' || term[pos] == '\n') {
+			pos++
+		}
+		if pos >= len(term) {
+			return nil
+		}
+		start := pos
+		if term[pos] == '(' {
+			pos++
+			n := &node{}
+			for pos < len(term) {
+				for pos < len(term) && term[pos] == ' ' {
+					pos++
+				}
+				if pos < len(term) && term[pos] == ')' {
+					pos++
+					break
+				}
+				k := rd()
+				if k == nil {
+					break
+				}
+				n.kids = append(n.kids, k)
+			}
+			n.text = term[start:pos]
+			return n
+		}
+		if term[pos] == '|' {
+			pos++
+			for pos < len(term) && term[pos] != '|' {
+				pos++
+			}
+			pos++
+			return &node{text: term[start:pos]}
+		}
+		for pos < len(term) && term[pos] != ' ' && term[pos] != ')' && term[pos] != '(' {
+			pos++
+		}
+		return &node{text: term[start:pos]}
+	}
+	var walk func(n *node)
+	walk = func(n *node) {
+		if n == nil {
+			return
+		}
+		if len(n.kids) >= 3 {
+			h := n.kids[0].text
+			if h == "select" || h == "s$at" || strings.HasPrefix(h, "view$") {
+				ix := n.kids[len(n.kids)-1].text
+				if !seen[ix] && len(ix) < 400 && !strings.Contains(ix, "!q") {
+					seen[ix] = true
+					out = append(out, ix)
+				}
+			}
+		}
+		for _, k := range n.kids {
+			walk(k)
+		}
+	}
+	for pos < len(term) {
+		n := rd()
+		if n == nil {
+			break
+		}
+		walk(n)
+	}
+	return out
 }
